@@ -71,6 +71,9 @@ func (x *Exec) libraryModel(st *State, call *ast.CallExpr, c *callee, recv *T, a
 	case "context.Background", "context.TODO":
 		return T{S: x.alloc(st, "ctx"), Ty: rt(0)}, true
 	}
+	if name == "golang.org/x/exp/slices.Sort" || name == "slices.Sort" {
+		return x.sortModel(st, call, "sort.Ints", args)
+	}
 	if strings.HasPrefix(name, "sort.") {
 		switch name {
 		case "sort.Slice", "sort.SliceStable", "sort.Sort", "sort.Stable", "sort.Strings", "sort.Ints":
